@@ -396,6 +396,53 @@ def run(world, rep, tier, only=None):
                    (st.text()[:40], st.line, has_sz("ext2_dx_tail")))
     rep.floor("C10.k stores of an index node's limit in link.c", n_k, 1)
 
+    # ------------------------------------------------------------------ C10.l a name that does not fit a directory entry is refused
+    # name_len is one byte: ext2fs_link() must compare the length with EXT2_NAME_LEN before either the linear or the
+    # htree insertion runs, or a 300-byte name is stored as the 44-byte name its length modulo 256 gives
+    lk = dbg.fn("ext2fs_link", "lib/ext2fs/link.c")
+    ins = calls_to(lk, "dx_link", "ext2fs_dir_iterate2", "ext2fs_dir_iterate")
+    rep.floor("C10.l insertion calls in ext2fs_link", len(ins), 2)
+    lenchk = [lk.block_end(b) for b in lk.blocks if lk.literal(b) and "EXT2_NAME_LEN" in T.macros(lk.literal(b)[0]) and
+              any("strlen" in (c.get("fn") or "") for c in T.calls(lk.literal(b)[0]))]
+    namep = lk.params[2] if len(lk.params) > 2 else None
+
+    def name_given(n, si, m, _f=lk):
+        lit = _f.literal(n.bid)     # (a NULL name has no length: only the paths with a name count)
+        if lit and T.path(lit[0]) == namep:
+            return (lit[1] if si == 0 else (not lit[1]))
+        return True
+    for i, c in enumerate(ins):
+        rep.ob("C10.l", site(lk, "name length compared with EXT2_NAME_LEN before the insertion#%d" % i),
+               bool(lenchk) and lk.dominated_by(c, lenchk, edge_ok=name_given),
+               "`strlen(name) > EXT2_NAME_LEN` dominates %s" % T.call_names(c.ev["x"])[0])
+    # the directory part of "/name" is the root: where a path is cut at its last '/', the part in front of it is looked
+    # up as "/" when it is empty (the empty string resolves to the current directory)
+    n_abs = 0
+    for (fname, ffile) in (("do_write_internal", "misc/create_inode.c"), ("do_mkdir_internal", "misc/create_inode.c"),
+                           ("do_symlink_internal", "misc/create_inode.c"), ("do_mknod", "debugfs/debugfs.c"),
+                           ("make_link", "debugfs/debugfs.c"), ("unlink_file_by_name", "debugfs/debugfs.c")):
+        f = dbg.fn(fname, ffile)
+        cuts = [n for n in calls_to(f, "strrchr") if T.const(arg(n, 1)) == 47]
+        cutvars = set()
+        for k in cuts:
+            kid = k.ev["x"].get("id")
+            cutvars |= {T.path(s_.ev["lhs"]) for s_ in f.events("S") if isinstance(s_.ev.get("rhs"), dict) and
+                        any(cc.get("id") == kid for cc in T.calls(s_.ev["rhs"]))}
+        for c in calls_to(f, "ext2fs_namei", "string_to_inode"):
+            pa = arg(c, 3) if is_call(c, "ext2fs_namei") else arg(c, 0)
+            # the lookup of the directory part sits on the "a '/' was found" arm; the others look up a whole path or
+            # the final name
+            if not any(t and T.path(a) in cutvars for t, a in control_lits(f, c)):
+                continue
+            n_abs += 1
+            p0 = T.strip(pa)
+            rootcase = isinstance(p0, dict) and p0.get("k") == "?" and \
+                any(isinstance(y, dict) and y.get("k") == "s" and y.get("v") == "/" or
+                    (isinstance(y, dict) and "str" in y and y.get("str") == "/") for y in T.walk(p0))
+            rep.ob("C10.j", site(f, "directory part of an absolute one-component path is the root#%d" % n_abs), rootcase,
+                   "the lookup after the cut receives `%s` (\"/\" when nothing is left in front of the cut)" % T.pp(pa)[:50])
+    rep.floor("C10.j lookups of the directory part after a cut", n_abs, 5)
+
     # ------------------------------------------------------------------ C10.f link/unlink report the outcome
     for (file, name, cb, nf) in (("lib/ext2fs/unlink.c", "ext2fs_unlink", "unlink_proc", "EXT2_ET_DIR_NO_SPACE"),
                                  ("lib/ext2fs/link.c", "ext2fs_link", "link_proc", "EXT2_ET_DIR_NO_SPACE")):
